@@ -239,6 +239,7 @@ func (ra *RestAgent) handleFetch(w http.ResponseWriter, r *http.Request) {
 		fetchResponse.Bundles = make([]bpv7.Bundle, 0)
 	}
 	ra.mailboxMutex.Unlock()
+	verifSchedPoint("rest/fetch-respond")
 
 	w.Header().Set("Content-Type", "application/json")
 	if err := json.NewEncoder(w).Encode(fetchResponse); err != nil {
